@@ -50,6 +50,9 @@ def run(ctx) -> None:
     r3_fail_not_lie(ctx)
     r4_live_state(ctx)
     r5_tabulated_writers(ctx)
+    # what to_plain() writes is the original value object: no modifier may change it in place (shared with C03.R9)
+    from . import c03
+    c03.r9_argument_not_mutated(ctx, "C06.R6")
 
 
 # ---------------------------------------------------------------- R1
